@@ -1,0 +1,30 @@
+//go:build verif
+
+// Machine-checked contracts for package shared (read by /verif/govc; comments only).
+//
+// C10: the counters count. g_failed is ghost: "Fail has been called on this counter"; it is set
+// by Fail and never cleared (there is no other ghost effect on it).
+
+package shared
+
+//@ ghost field tester/shared.Counter.g_failed bool
+
+//@ func (*Counter).Pass [C10]
+//@   requires c != nil
+//@   ensures [pass-counts] c.Passes == old(c.Passes) + 1 && c.Asserts == old(c.Asserts) + 1 && c.Fails == old(c.Fails) && c.Skips == old(c.Skips)
+//@   assigns c.Asserts, c.Passes
+
+//@ func (*Counter).Fail [C10]
+//@   requires c != nil
+//@   ensures [fail-counts] c.Fails == old(c.Fails) + 1 && c.Asserts == old(c.Asserts) + 1 && c.Passes == old(c.Passes) && c.Skips == old(c.Skips)
+//@   ensures [fail-recorded] c.g_failed
+//@   ghost-effect c.g_failed = true
+//@   assigns c.Asserts, c.Fails
+
+//@ func (*Counter).Skip [C10]
+//@   requires c != nil
+//@   ensures [skip-counts] c.Skips == old(c.Skips) + 1 && c.Asserts == old(c.Asserts) && c.Passes == old(c.Passes) && c.Fails == old(c.Fails)
+//@   assigns c.Skips
+
+//@ func NewCounter [C10]
+//@   ensures result != nil && fresh(result)
